@@ -192,6 +192,7 @@ class State:
         self.symbranches = 0
         self.oracles = 0
         self.nforks = 0
+        self.sym_oracles = 0
         self.ikey = None
         self.idecs = []
         self.known = {}
@@ -221,6 +222,7 @@ class State:
         s.symbranches = self.symbranches
         s.oracles = self.oracles
         s.nforks = self.nforks
+        s.sym_oracles = self.sym_oracles
         s.ikey = self.ikey
         s.idecs = list(self.idecs)
         s.known = dict(self.known)
